@@ -97,13 +97,20 @@ Theorem default_not_altered_scalars : forall fmt numtext pt k j,
 Proof. exact CtorProofs.default_not_altered_scalars. Qed.
 Print Assumptions default_not_altered_scalars.
 
+(* refuted for LIST defaults of numbers, in every format: Go rejects the []string{...} literal *)
+Theorem default_not_altered_lists_refuted_go : forall fmt numtext m e a,
+  exists w, assign (TArray a (TScalar attrs0 KInt64 DNil [])) (format_scalar (fe_value fmt numtext (JArr [JNum m e]))) = CNoCompile w.
+Proof. exact CtorProofs.go_list_of_numbers_does_not_compile. Qed.
+Print Assumptions default_not_altered_lists_refuted_go.
+
+(* BEGIN jsonschema-list-elements *)
 (* refuted for LIST defaults in JSON Schema: the elements stay json.Number, printed as quoted strings: Python holds
-   strings; Go rejects the literal (as it does for every list of non-strings, in every format) *)
-Theorem default_not_altered_jsonschema_lists_refuted : forall numtext m e a,
-  py_lit_json (fe_value "jsonschema" numtext (JArr [JNum m e])) = POk (JArr [JStr (numtext m e)]) /\
-  (exists w, assign (TArray a (TScalar attrs0 KInt64 DNil [])) (format_scalar (fe_value "jsonschema" numtext (JArr [JNum m e]))) = CNoCompile w).
+   strings *)
+Theorem default_not_altered_jsonschema_lists_refuted : forall numtext m e,
+  py_lit_json (fe_value "jsonschema" numtext (JArr [JNum m e])) = POk (JArr [JStr (numtext m e)]).
 Proof. exact CtorProofs.default_altered_jsonschema_list_numbers. Qed.
 Print Assumptions default_not_altered_jsonschema_lists_refuted.
+(* END jsonschema-list-elements *)
 
 (* dropped before any jenny runs *)
 Theorem defaults_dropped_by_front_ends : forall numtext j,
